@@ -383,6 +383,78 @@ reuse_segv(int sig)
         (void) sig;
         siglongjmp(reuse_jmp, 1);
 }
+/* ---------- the output must not depend on WHERE the context lives: the same one-shot and streaming compression with the isal_zstream at many
+ * different addresses (64 KiB apart, so that every address bit above the page offset varies); distinct outputs are dumped for TLC to compare ---------- */
+static void
+address_independence(FILE *o)
+{
+        enum { SLOTS = 4096, N = 600 };
+        static unsigned char in[N], out[4096], first[4][2][4096], lb[ISAL_DEF_LVL3_DEFAULT];
+        size_t flen[4][2];
+        int level, mode, k, i, ndiff[4][2];
+        unsigned char *arena = mmap(NULL, (size_t) SLOTS * 65536 + 65536, PROT_NONE, MAP_PRIVATE | MAP_ANONYMOUS | MAP_NORESERVE, -1, 0);
+        uintptr_t base;
+        uint64_t r = 0x9E3779B97F4A7C15ULL;
+        if (arena == MAP_FAILED)
+                return;
+        base = ((uintptr_t) arena + 0xffff) & ~(uintptr_t) 0xffff;
+        /* 16 distinct bytes, noise, the same 16 bytes again (a match back to the very start of the stream), a run */
+        for (i = 0; i < N; i++) {
+                r = r * 6364136223846793005ULL + 1442695040888963407ULL;
+                in[i] = (unsigned char) (r >> 56);
+        }
+        memcpy(in + 200, in, 16);
+        memcpy(in + 400, in + 1, 24);
+        memset(in + 500, 'z', 60);
+        memset(ndiff, 0, sizeof(ndiff));
+        for (k = 0; k < SLOTS; k++) {
+                struct isal_zstream *z = (struct isal_zstream *) (base + (uintptr_t) k * 65536);
+                if (mprotect(z, (sizeof(*z) + 4095) & ~4095ul, PROT_READ | PROT_WRITE))
+                        continue;
+                for (level = 0; level < 4; level++)
+                        for (mode = 0; mode < 2; mode++) {
+                                size_t n;
+                                memset(lb, 0, sizeof(lb));
+                                if (mode == 0) {
+                                        isal_deflate_stateless_init(z);
+                                        z->level = level;
+                                        z->level_buf = lb;
+                                        z->level_buf_size = sizeof(lb);
+                                        z->next_in = in;
+                                        z->avail_in = N;
+                                        z->next_out = out;
+                                        z->avail_out = sizeof(out);
+                                        z->end_of_stream = 1;
+                                        if (isal_deflate_stateless(z) != COMP_OK)
+                                                continue;
+                                        n = z->total_out;
+                                } else {
+                                        isal_deflate_init(z);
+                                        z->avail_in = 0;
+                                        z->level = level;
+                                        z->level_buf = lb;
+                                        z->level_buf_size = sizeof(lb);
+                                        n = stream_compress(z, in, N, out, sizeof(out), 250, FULL_FLUSH);
+                                }
+                                if (k == 0) {
+                                        memcpy(first[level][mode], out, n);
+                                        flen[level][mode] = n;
+                                } else if ((n != flen[level][mode] || memcmp(first[level][mode], out, n)) && ndiff[level][mode] < 2) {
+                                        char name[80];
+                                        sprintf(name, "address-level%d-mode%d-other%d", level, mode, ndiff[level][mode]++);
+                                        dump(o, name, out, n, k);
+                                }
+                        }
+                munmap(z, (sizeof(*z) + 4095) & ~4095ul);
+        }
+        for (level = 0; level < 4; level++)
+                for (mode = 0; mode < 2; mode++) {
+                        char name[80];
+                        sprintf(name, "address-level%d-mode%d-first", level, mode);
+                        dump(o, name, first[level][mode], flen[level][mode], 0);
+                }
+}
+
 /* ---------- reuse, one-shot compressor: a context (and its level buffer) that already served isal_deflate_stateless calls versus a fresh one ---------- */
 static void
 stateless_reuse(FILE *o)
@@ -811,6 +883,7 @@ main(int argc, char **argv)
         if (!strcmp(argv[1], "reuse")) {
                 FILE *o = fopen(argv[2], "w");
                 reuse(o);
+                address_independence(o);
                 stateless_reuse(o);
                 signal(SIGSEGV, reuse_segv);
                 signal(SIGBUS, reuse_segv);
